@@ -79,6 +79,17 @@ type ScriptComm struct {
 	closed []string
 	// OnSubscribe, if set, is called (in its own goroutine) for every new subscription.
 	OnSubscribe func(s *ScriptSub)
+	// sendErr, if set (SetSendErr), decides the result of every Broadcast after it was recorded:
+	// the transport's per-peer send failures (the libp2p implementation returns the
+	// *comm.CommunicationError of the first addressee it could not reach).
+	sendErr func(s ScriptSent) error
+}
+
+// SetSendErr installs (or, with nil, removes) the function that decides the result of Broadcast.
+func (c *ScriptComm) SetSendErr(f func(s ScriptSent) error) {
+	c.mu.Lock()
+	c.sendErr = f
+	c.mu.Unlock()
 }
 
 func NewScriptComm() *ScriptComm {
@@ -96,9 +107,14 @@ func (c *ScriptComm) CloseSession(sessionID string) {
 
 func (c *ScriptComm) Broadcast(peers peer.IDSlice, msg []byte, msgType comm.MessageType, sessionID string) error {
 	c.mu.Lock()
-	c.sent = append(c.sent, ScriptSent{To: append([]peer.ID{}, peers...), Type: msgType, Session: sessionID, Payload: append([]byte{}, msg...)})
+	s := ScriptSent{To: append([]peer.ID{}, peers...), Type: msgType, Session: sessionID, Payload: append([]byte{}, msg...)}
+	c.sent = append(c.sent, s)
+	f := c.sendErr
 	c.cond.Broadcast()
 	c.mu.Unlock()
+	if f != nil {
+		return f(s)
+	}
 	return nil
 }
 
